@@ -228,7 +228,7 @@ def run(F, R):
     ub = [u for u in c.unsafe_blocks if "x" not in u["sp"] and u["body"] in reachable]
     all_ub = [u for u in c.unsafe_blocks if "x" not in u["sp"] and not any(x in u["body"] for x in TEST_SUPPORT)]
     names = sorted(set(W.by_id[u["body"]]["name"] for u in all_ub if u["body"] in W.by_id))
-    R.check("C14-R3", "unsafe-blocks", len(all_ub) == 2 and names == ["cup_ecdsa::parse_etag"], "2 unsafe blocks, both in cup_ecdsa::parse_etag", "hand-written unsafe blocks: %s" % [(W.by_id[u["body"]]["name"] if u["body"] in W.by_id else u["body"], u["sp"]["l"]) for u in all_ub])
+    R.check("C14-R3", "unsafe-blocks", len(all_ub) <= 2 and set(names) <= {"cup_ecdsa::parse_etag"}, "%d unsafe blocks, none outside cup_ecdsa::parse_etag (whose two are justified by C01-R6)" % len(all_ub), "hand-written unsafe blocks: %s" % [(W.by_id[u["body"]]["name"] if u["body"] in W.by_id else u["body"], u["sp"]["l"]) for u in all_ub])
     uf = [b["name"] for b in c.bodies if b.get("unsafe") and "x" not in b["sp"] and not any(x in b["id"] for x in TEST_SUPPORT)]
     R.check("C14-R3", "unsafe-fns", not uf, "no unsafe fn", "unsafe fns: %s" % uf)
 
